@@ -120,6 +120,8 @@ def gen_test(rng, tid, tok, kind=None, p_write=0.3):
         t["cleanups"][rng.randrange(2)]["exc"] = "skip"
     if rng.random() < 0.05:
         t["count"] = 3
+    if rng.random() < 0.15:
+        t["rebind"] = True
     return t
 
 
